@@ -67,6 +67,13 @@ pub fn run_gdt(r: &mut Rep) {
         let mut g: Box<GlobalDescriptorTable<M>> = Box::new(GlobalDescriptorTable::<M>::empty());
         for i in 0..appends {
             let used = g.entries().len();
+            if appends > 1000 {
+                // large fills: user segments only so that every slot count up to MAX is reachable
+                if used + 1 <= M {
+                    g.append(Descriptor::kernel_data_segment());
+                }
+                continue;
+            }
             if i % 3 == 2 && used + 2 <= M {
                 g.append(Descriptor::SystemSegment(0x0000_8900_0000_0067, 0));
             } else if used + 1 <= M {
@@ -89,9 +96,16 @@ pub fn run_gdt(r: &mut Rep) {
         one::<8>(r, n);
     }
     one::<1>(r, 0);
+    one::<2>(r, 1);
     one::<3>(r, 2);
     one::<9>(r, 5);
+    one::<9>(r, 8);
     one::<8192>(r, 100);
+    // completely full tables, incl. the largest one (limit 0xffff)
+    one::<8192>(r, 4095);
+    one::<8192>(r, 8190);
+    one::<8192>(r, 8191);
+    one::<8192>(r, 9000);
     let s: &'static GlobalDescriptorTable = Box::leak(Box::new({ let mut g = GlobalDescriptorTable::new(); g.append(Descriptor::kernel_data_segment()); g }));
     cpu().clear_events();
     let _ = run_stepped(|| s.load());
